@@ -16,7 +16,7 @@ func init() {
 			"D3 iteration — ForEach reports (0, zero) exactly when zero ≠ 0, positive bins as (Value(i), c), negative bins as (−Value(i), c); the store callbacks return the user callback's verdict, the negative side is only visited if the positive iteration was not stopped; GetSum accumulates value·count for every bin and never stops the iteration. "+
 			"D4 batch quantiles store the single-query result for the same element. "+
 			"D5 the iteration contract of every store the sketch iterates through (the C04-D3 obligations re-evaluated: each bin reported once with its weight, the callback's stop verdict honoured immediately, channels closed). "+
-			"D6 coherence across Copy — the exact variant's Copy returns {inner.Copy(), statistics.Copy()} (a shared statistics object would let a later operation on either sketch change the other's count, extremes and sum). "+
+			"D6 coherence of the exact variant (the C10-D1 wrapper table re-evaluated as C12-D6) — every state-changing wrapper updates the inner sketch and the statistics together and only on success: Add / AddWithCount (nothing for weight 0, nothing when the inner add fails), MergeWith (the statistics merge only after the inner merge succeeded), Clear, Reweight, ChangeMapping; Copy returns {inner.Copy(), statistics.Copy()} (a shared statistics object would let a later operation on either sketch change the other's count, extremes and sum). "+
 			"SHARED (obligations of other properties that decide clauses this property states too, re-evaluated here under their home rule ids): C06-D3 sketch-state writes (decoders only accumulate, so the count stays the absorbed weight when decoding into a non-empty sketch). C10-D3 as C12-D7 (field tables of the statistics object: Copy, Clear, Reweight, Rescale, MergeWith, Add); C10-D6 as C12-D9 (the exact variant's accessors: count, sum and extremes from the statistics — (NaN, error) exactly when empty —, zero weight, stores and iteration from the inner sketch; the constructor from parts refuses exactly the disagreeing parts); C05-D9 as C12-D8 (named constructors give both sides the announced store kind). C02-D1 (the sketch merge adds the zero weight and merges both sides on every accepting path). "+
 			"NOT DECIDED: 'within alpha of the true extremes', monotonicity in q, accuracy of the approximate sum (numeric).",
 		"one obligation per path of the extreme/emptiness tables, per iteration clause; non-trivial = a path evaluation was needed",
@@ -38,7 +38,7 @@ func runC12(c *Ctx) {
 		c04Iteration(c, c.P.Implementations(storeI), "C12-D5")
 	}
 	// coherence after Copy: the exact variant's copy carries its own copy of the statistics
-	c10Wrappers(c, a, "C12-D6", "Copy")
+	c10Wrappers(c, a, "C12-D6", "")
 	// coherence across decoding: the decoders only accumulate into the sketch's state (an assignment would make the
 	// count disagree with the absorbed weight when decoding into a non-empty sketch)
 	c.shared(func() { c06Additive(c, a) }, keyMentions("/write/", "block-local"))
